@@ -1130,6 +1130,15 @@ pub struct Fs {
     /// and bypass the page cache without plumbing the per-`File`
     /// `direct_io` flag through the kernel-shaped API.
     pub direct_io_fds: indexmap::IndexSet<RawFd>,
+    /// Subset of [`Self::open_handles`] that was NOT opened for reading.
+    ///
+    /// Like [`Self::direct_io_fds`] this exists for the io_uring shim, which
+    /// only sees a bare `RawFd` on the SQE: a `Read` on such an fd completes
+    /// with `-EBADF`, as `read(2)` on an `O_WRONLY` descriptor does.
+    pub read_denied_fds: indexmap::IndexSet<RawFd>,
+    /// Subset of [`Self::open_handles`] that was NOT opened for writing
+    /// (`Write` through it completes with `-EBADF`).
+    pub write_denied_fds: indexmap::IndexSet<RawFd>,
     /// Next file descriptor to assign.
     next_fd: RawFd,
     /// Probability that writes are randomly synced to durable storage (0.0 - 1.0)
@@ -1175,6 +1184,8 @@ impl Fs {
             pending: Vec::new(),
             open_handles: IndexMap::new(),
             direct_io_fds: indexmap::IndexSet::new(),
+            read_denied_fds: indexmap::IndexSet::new(),
+            write_denied_fds: indexmap::IndexSet::new(),
             next_fd: SIM_FD_BASE,
             sync_probability: config.sync_probability,
             capacity: config.capacity,
